@@ -1,6 +1,8 @@
 package main
 
 import (
+	. "verifharness/internal/core"
+
 	"fmt"
 	"math/big"
 	"strings"
